@@ -33,7 +33,7 @@ VARS = [
  ("rootCloseReturned", "threads whose root Close has returned"),
  ("closePromise", "thread -> promised as it was when the thread called the root's Close"),
  ("barrierBroken", "a root Close returned before everything promised at its call was delivered and flushed"),
- ("unflushed", "a delivery happened since the last Flush"),
+ ("unflushed", "one of the library's own passes delivered something since its last Flush"),
  ("callsAfterClose", "number of pass deliveries (counter, gauge, histogram), Flush or Close calls the library's own passes made on the reporter after the first root Close returned"),
  ("reporterCloses", "number of Close calls on the reporter"),
  ("closeBeforeFlush", "the reporter was closed while deliveries were unflushed"),
@@ -70,20 +70,20 @@ ACTIONS = [
   [("deliv", "Put(deliv, id, Norm(Get(deliv, id) + v))"),
    ("negDelivery", "(negDelivery \\/ (nonneg /\\ v <= 0))"),
    ("lateDelivery", "(lateDelivery \\/ quiesced)"),
-   ("unflushed", "TRUE"), RC], []),
+   ("unflushed", "(unflushed \\/ own)"), RC], []),
  ("ObsUpdateCall", "id, v, inert, o", "Gauge.Update(v) has been called through a handle obtained from scope object o (inert: on a scope obtained after the root's Close; a handle of a scope object that has been closed is a stale handle - nothing is promised for either)",
   [("updc", "IF inert \\/ o \\in objClosed THEN updc ELSE Put(updc, id, Append(GetSeq(updc, id), v))")], []),
  ("ObsUpdateReturn", "id, inert, o", "Gauge.Update has returned",
   [("upd", "IF inert \\/ o \\in objClosed THEN upd ELSE Put(upd, id, Get(upd, id) + 1)")], []),
  ("ObsDeliverGauge", "id, v, own", "the reporter received a gauge value",
-  [("gdl", "Put(gdl, id, Append(GetSeq(gdl, id), v))"), ("unflushed", "TRUE"), RC], []),
+  [("gdl", "Put(gdl, id, Append(GetSeq(gdl, id), v))"), ("unflushed", "(unflushed \\/ own)"), RC], []),
  ("ObsPassBegin", "p", "report pass p begins; due[g] = number of updates of g if every Update that began has returned, else -1",
   [("passes", "Put(passes, p, [ended |-> FALSE,\n                               due |-> [g \\in DOMAIN updc |-> IF Get(upd, g) = Len(updc[g]) THEN Len(updc[g]) ELSE -1]])")], []),
  ("ObsPassEnd", "p", "report pass p ends.  If no other pass is in flight, every gauge whose updates had all stopped before p began must now have the last update as the reporter's most recent value",
   [("staleAfterPass", "(staleAfterPass \\/\n        (/\\ \\A q \\in DOMAIN passes : q = p \\/ passes[q].ended\n         /\\ \\E g \\in DOMAIN passes[p].due :\n              /\\ passes[p].due[g] = Len(updc[g]) /\\ Len(updc[g]) > 0\n              /\\ (g \\notin DOMAIN gdl \\/ Len(gdl[g]) = 0 \\/ Last(gdl[g]) # Last(updc[g]))))"),
    ("passes", "[passes EXCEPT ![p].ended = TRUE]")], ["p \\in DOMAIN passes"]),
  ("ObsQuiesce", "", "all scenario threads have finished and one more report pass has run", [("quiesced", "TRUE")], []),
- ("ObsFlush", "own", "the reporter's Flush was called", [("unflushed", "FALSE"), RC], []),
+ ("ObsFlush", "own", "the reporter's Flush was called (the flush of a pass the harness drives does not settle what the library's own passes delivered, and its deliveries are not the library's to flush)", [("unflushed", "IF own THEN FALSE ELSE unflushed"), RC], []),
  ("ObsReporterClose", "", "the reporter's Close was called",
   [("reporterCloses", "reporterCloses + 1"), ("closeBeforeFlush", "(closeBeforeFlush \\/ unflushed)"), RC1], []),
  ("ObsCloseCall", "o", "Close of subscope object o has been called", [("objClosed", "objClosed \\cup {o}")], []),
